@@ -203,6 +203,9 @@ pub fn check_selection_with(input: &[u8], build: &dyn Fn() -> Outcome) -> (Vec<(
         }
     }
     let min_hi = pens.iter().map(|p| p.1).min().unwrap();
+    if std::env::var("FQV_C11_DEBUG").is_ok() && (0..8).any(|k| used[k] < pens[k].0 || used[k] > pens[k].1) {
+        eprintln!("DISCREPANCY v{} emitted {} documented {:?} used {:?}", v, emitted, pens.iter().map(|p| p.1).collect::<Vec<_>>(), used);
+    }
     if pens[emitted].0 > min_hi {
         let best = pens.iter().position(|p| p.1 == min_hi).unwrap();
         out.push((
@@ -279,6 +282,132 @@ pub fn run(ctx: &Ctx) -> Collector {
             }
         }
         spaces_v.push(Space { name: "S_tickets".into(), describe: format!("T00000Z.. (level H, v1), TICKET00000.. (level Q, v1; level H, v2), Sg00000zQ.. (level H, v2), {} each, and half as many 21- and 33-byte URLs at level H (v3, v4): small symbols filled (nearly) to capacity with distinct content", n), cases, exhaustive: true });
+    }
+    {
+        // designed selection instances: candidate k looks random except for one planted feature of the documented
+        // penalty (a 1011101 window next to a long run, runs of particular lengths, a 2x2 block across a 64-column
+        // boundary), on versions 10 and 12; many seeds, so that the planted candidate is sometimes the winner by less
+        // than the feature is worth. A scorer that misses the feature only in such surroundings changes the selection
+        // here and nowhere among natural payloads.
+        // The seeds are searched with R: an instance is kept when the planted candidate is the documented winner or
+        // within 60 points of it (a close race that the feature decides), or among the first `plain` seeds.
+        let scan: u64 = if thorough { 6000 } else { 1200 };
+        let plain: u64 = if thorough { 100 } else { 30 };
+        let close_race = |v: usize, e: usize, k: usize, p: &[u8]| -> bool {
+            let g = r::geo_of(v);
+            let n = g.n;
+            let enc: Vec<bool> = g.reg.iter().map(|&x| x == Reg::Data).collect();
+            let mut pens = [0i64; 8];
+            for j in 0..8 {
+                let mut vals = r::encode_symbol(p, 2, e, v, j);
+                for i in 0..n * n {
+                    if g.reg[i] == Reg::Format {
+                        vals[i] = false;
+                    }
+                }
+                pens[j] = r::penalty(&vals, &enc, n).1 as i64;
+            }
+            let other = (0..8).filter(|&j| j != k).map(|j| pens[j]).min().unwrap();
+            (pens[k] - other).abs() <= 60
+        };
+        type Wanted = Box<dyn Fn(usize, usize) -> Option<bool> + Send + Sync>;
+        let mut designs: Vec<(usize, usize, u64, Wanted)> = vec![];
+        for &(v, e) in &[(10usize, 0usize), (12, 0)] {
+            let n = r::side(v);
+            let ok = spaces::data_codeword_modules(v, e);
+            // a horizontal and a vertical stretch of 46 data-codeword modules
+            let mut row_at = None;
+            'r: for y in (9..n - 9).rev() {
+                for x0 in 9..n - 46 {
+                    if (0..46).all(|d| ok[y * n + x0 + d]) {
+                        row_at = Some((y, x0));
+                        break 'r;
+                    }
+                }
+            }
+            let mut col_at = None;
+            'c: for x in (9..n).rev() {
+                for y0 in 9..n - 46 {
+                    if (0..46).all(|d| ok[(y0 + d) * n + x]) {
+                        col_at = Some((x, y0));
+                        break 'c;
+                    }
+                }
+            }
+            let feats: Vec<Vec<bool>> = vec![
+                [vec![true, false, true, true, true, false], vec![true; 33]].concat(),
+                [vec![true; 33], vec![false, true, false, true, true, true, false, true]].concat(),
+                [vec![false, false, false, false, true, false, true, true, true, false, true], vec![false; 33]].concat(),
+                [vec![false], vec![true; 5], vec![false], vec![true; 6], vec![false], vec![true; 31], vec![false]].concat(),
+                [vec![true], vec![false; 32], vec![true], vec![false; 8], vec![true]].concat(),
+            ];
+            for (fi, feat) in feats.iter().enumerate() {
+                for vertical in [false, true] {
+                    let at = if vertical { col_at } else { row_at };
+                    let (a, b0) = match at {
+                        Some(t) => t,
+                        None => continue,
+                    };
+                    let feat = feat.clone();
+                    designs.push((v, e, fi as u64, Box::new(move |y: usize, x: usize| -> Option<bool> {
+                        let (line, pos) = if vertical { (x, y) } else { (y, x) };
+                        if line == a && pos >= b0 && pos < b0 + feat.len() {
+                            Some(feat[pos - b0])
+                        } else {
+                            None
+                        }
+                    })));
+                }
+            }
+            // a dark 2x2 block across the boundary between columns 63 and 64 (version 12 only: side 65)
+            if n > 64 {
+                for y0 in [20usize, 27, 34] {
+                    designs.push((v, e, 100 + y0 as u64, Box::new(move |y: usize, x: usize| -> Option<bool> {
+                        if (y == y0 || y == y0 + 1) && (x == 63 || x == 64) {
+                            Some(true)
+                        } else if y + 1 >= y0 && y <= y0 + 2 && (62..=65).contains(&x) {
+                            Some(false)
+                        } else {
+                            None
+                        }
+                    })));
+                }
+            }
+        }
+        let workers = std::thread::available_parallelism().map(|n| n.get()).unwrap_or(4).min(16) as u64;
+        let mut kept: Vec<(usize, u64, Vec<u8>, usize, usize)> = vec![];
+        std::thread::scope(|sc| {
+            let mut hs = vec![];
+            for w in 0..workers {
+                let designs = &designs;
+                let close_race = &close_race;
+                hs.push(sc.spawn(move || {
+                    let mut mine = vec![];
+                    for (di, (v, e, tag, wanted)) in designs.iter().enumerate() {
+                        let mut seed = w;
+                        while seed < scan {
+                            let k = (seed % 8) as usize;
+                            let p = spaces::payload_for_candidate(*v, *e, k, seed * 31 + tag, wanted.as_ref());
+                            if seed < plain || close_race(*v, *e, k, &p) {
+                                mine.push((di, seed, p, *v, *e));
+                            }
+                            seed += workers;
+                        }
+                    }
+                    mine
+                }));
+            }
+            for h in hs {
+                kept.extend(h.join().unwrap());
+            }
+        });
+        kept.sort_by(|a, b| (a.0, a.1).cmp(&(b.0, b.1)));
+        let n_designs = designs.len();
+        let mut cases = vec![];
+        for (_, _, p, v, e) in kept {
+            cases.push(Case::new(p, Opts { mode: Some(2), ecl: Some(e as u8), version: Some(v as u8), mask: None, order: 0 }));
+        }
+        spaces_v.push(Space { name: "S_planted".into(), describe: format!("designed selection instances on versions 10 and 12 (level L): a pseudo-random candidate k with one planted feature (1011101 next to a run of 33, a run followed by the window, runs of lengths 5/6/31/32, a 2x2 block across columns 63/64), horizontally and vertically; {} designs x {} seeds searched with R, kept: the first {} seeds of each design and every seed where the planted candidate wins or loses the documented selection by at most 60 points", n_designs, scan, plain), cases, exhaustive: true });
     }
     {
         let mut sp = spaces::s_antimask(thorough);
